@@ -4,7 +4,7 @@ from vlib.runner import Case
 
 PID = "C03"
 PROPS = ["Props/C03.v"]
-GEN = []
+GEN = ['LexConst.v', 'ParseConst.v']
 MODEL_IS_SPEC = False
 RULE = ("well-typed query ASTs (all selector kinds, nested filters, comparisons, built-in calls) rendered with every optional lexical form (blank space at every position the "
         "grammar allows incl. LF/CR/TAB, both quote styles, every escape form incl. \\uXXXX in both hex cases and surrogate pairs, shorthand or bracket notation, number "
